@@ -82,8 +82,12 @@ type Pipe struct {
 	Trace       []Event
 	seq         int
 
-	Writes [][]byte // every Write in order (always recorded)
-	States []string // device state at each Write
+	Writes   [][]byte // every Write in order (always recorded)
+	States   []string // device state at each Write
+	Reacts   []int    // length of the device's reaction to each Write
+	ReactB   [][]byte // the reactions themselves
+	StartB   []byte   // what was produced on connect
+	StartLen int      // bytes produced on connect
 
 	AuthType transport.InChannelAuthType // only used through the WithAuth wrapper
 }
@@ -137,7 +141,10 @@ func (p *Pipe) Open(_ *transport.Args) error {
 
 	p.opened = true
 	if p.R != nil {
-		p.produce(p.R.Start())
+		st := p.R.Start()
+		p.StartLen = len(st)
+		p.StartB = append([]byte(nil), st...)
+		p.produce(st)
 	}
 
 	p.cond.Broadcast()
@@ -266,7 +273,7 @@ func (p *Pipe) Read(n int) ([]byte, error) {
 			kind := p.LoseKind
 			p.mu.Unlock()
 
-			if kind == "eof" {
+			if kind == "eof" || kind == "eofhalf" {
 				return nil, io.EOF
 			}
 
@@ -303,6 +310,13 @@ func (p *Pipe) Write(b []byte) error {
 		return errors.New("simdev: write on closed transport")
 	}
 
+	if p.lost && (p.LoseKind == "eofhalf" || p.LoseKind == "errhalf") {
+		// half-closed connection: the write is accepted by the local end and goes nowhere
+		p.ev("recv-lost", b)
+
+		return nil
+	}
+
 	if p.lost || (p.LoseAt >= 0 && p.LoseKind == "werr" && p.delivered >= p.mark+p.LoseAt) {
 		p.lost = true
 		p.ev("writeerr", b)
@@ -322,7 +336,13 @@ func (p *Pipe) Write(b []byte) error {
 	p.ev("recv", cp)
 
 	if p.R != nil {
-		p.produce(p.R.OnInput(cp))
+		out := p.R.OnInput(cp)
+		p.Reacts = append(p.Reacts, len(out))
+		p.ReactB = append(p.ReactB, append([]byte(nil), out...))
+		p.produce(out)
+	} else {
+		p.Reacts = append(p.Reacts, 0)
+		p.ReactB = append(p.ReactB, nil)
 	}
 
 	p.cond.Broadcast()
